@@ -60,6 +60,9 @@ e9ec943 C11
 7e36fb9 C01
 2992064 C09
 09ce5fb C11
+e9b2377 C09
+80bcf53 C12
+6655474 C14
 L
 fi
 mv $out.tmp $out
